@@ -106,7 +106,8 @@ def scope(tier, seed):
             'iso-representatives with F lists of <=1 set + quarter %d of the two-set lists]' % (seed % 4)
             if tier == 'quick' else '') + '; representatives of K(3,{p}) x '
             + ('F lists of <=1 subset and [P,S] (LTL/CTL* on the quarter of the representatives with '
-               'index %% 4 == %d)' % (seed % 4) if tier == 'quick' else 'all 73 F lists')
+               'index %% 4 == %d)' % (seed % 4) if tier == 'quick' else
+               'F lists of <=1 subset, [P,S] and a seed-indexed quarter of the two-set lists')
             + ' x formulas over {p}' + ('' if tier == 'quick' else '; size-2 formulas on K(<=2)')
             + '; CTL formulas with quantified operands (Q[a U/R b], Q[b U a], QX/QF/QG b; b one-operator '
             'quantified) on the K(3,{p}) representatives' + (' (a seed-indexed third of the formulas on half of the structures)' if tier == 'quick' else '')
@@ -279,6 +280,8 @@ def run_shard(shard, tier, seed, acc):
                                      if f not in seenf]
                 if size2:
                     forms = [f for f in forms if spaces.size_of(f) >= 3 or logic == 'CTL']
+                    if logic != 'CTL':
+                        forms = forms[(seed % 4)::4]
                 for j, f in enumerate(forms):
                     if deadline_passed():
                         acc.capped()
@@ -349,10 +352,10 @@ def run_shard(shard, tier, seed, acc):
         for ki, k in enumerate(_k3()[shard[1]:shard[2]]):
             Kl = lib.to_kripke(k)
             slow_ok = (tier != 'quick') or ((shard[1] + ki) % 4 == seed % 4)
-            if tier == 'quick':
-                Fl = f_lists(3, 1) + [[P[0], frozenset(range(3))] for P in f_lists(3, 1)[1:]]
-            else:
-                Fl = f_lists(3)
+            Fl = f_lists(3, 1) + [[P[0], frozenset(range(3))] for P in f_lists(3, 1)[1:]]
+            if tier != 'quick':
+                two = [F for F in f_lists(3) if len(F) == 2]
+                Fl = Fl + [F for i, F in enumerate(two) if i % 4 == seed % 4]
             for logic in ('CTL', 'LTL', 'CTLS'):
                 if logic != 'CTL' and not slow_ok:
                     continue
